@@ -73,6 +73,9 @@ class Mk:
             'contracts': self.dict(name + '_contracts'),
             'plugins': self.dict(name + '_plugins'),
         }
+        f['definitions'].valtype = 'Tape'
+        f['plugins'].valtype = 'list'
+        f['contracts'].valtype = 'opaque'
         f.update(over)
         return HObj(cls, f)
 
@@ -104,10 +107,16 @@ class Mk:
             return self.tape(name)
         if desc in ('Cache', 'dict'):
             return self.dict(name)
+        if desc == 'list[any]':
+            z = ZList('val', kind='list')
+            self.assume(zint(z.ln) >= 0)
+            return z
         if desc == 'list[bytes]':
             return self.list_bytes(name)
         if desc == 'tuple[bytes]':
             return self.list_bytes(name, kind='tuple')
+        if desc == 'tuple3':
+            return (self.bytes(name + '0'), self.bytes(name + '1'), self.bytes(name + '2'))
         if desc == 'opaque':
             return self.opaque(name)
         if isinstance(desc, tuple) and desc[0] == 'const':
